@@ -8,7 +8,7 @@ A == <<97>>                       \* "a"
 ABS == <<47, 120>>                \* "/x"
 URL == <<104, 116, 116, 112, 58, 47, 47, 104>>   \* "http://h"
 SrcPool == { A, <<>>, ABS, URL, <<98>> }
-RootPool == { <<>>, << <<>> >>, << <<114>> >>, << <<114, 47>> >>, << <<47>> >> }   \* none, "", "r", "r/", "/"
+RootPool == { <<>>, << <<>> >>, << <<114>> >>, << <<114, 47>> >>, << <<114, 47, 47>> >>, << <<47>> >> }   \* none, "", "r", "r/", "r//", "/"
 NamePool == { "n", "", "m" }
 P0 == <<0, 0, 0, 0, 0>>
 P1 == <<0, 4, 1, 2, 0>>
